@@ -32,6 +32,7 @@ ATOMS = [
     ("redundant", "c+", ["redundantAssignment"], "void f{n}(int x){{ int i; i = x; i = 2; (void)i; }}"),
     ("ptroob", "c+", ["pointerOutOfBounds"], "void f{n}(void){{ char a[10]; const char *p = a + 11; (void)p; }}"),
     ("unsignedlt", "c+", ["unsignedLessThanZero"], "int f{n}(unsigned u){{ if (u < 0) return 1; return 0; }}"),
+    ("branches", "c+", ["zerodiv"], "int gb{n}(int); int f{n}(int a,int b,int c,int d,int e,int h){{ int x=0; if(a){{gb{n}(1);}} if(b){{gb{n}(2);}} if(c){{gb{n}(3);}} if(d){{gb{n}(4);}} if(e){{gb{n}(5);}} if(h){{gb{n}(6);}} return 10/x; }}"),  # only with --check-level=exhaustive
     ("cstyle", "+", ["cstyleCast"], "void f{n}(const char*s){{ char*t=(char*)s; (void)t; }}"),
     ("byvalue", "+", ["passedByValue"], "void f{n}(std::string s){{ (void)s.size(); }}"),
     ("postfix", "+", ["postfixOperator"], "void f{n}(std::list<int>&l){{ for(std::list<int>::iterator it=l.begin(); it!=l.end(); it++){{}} }}"),
